@@ -296,3 +296,70 @@ def construct(env, cls, arg, mode, need_size=None, kwargs_form=False):
     if kwargs_form and isinstance(arg, dict):
         return cls(**arg, **kw), reserved
     return cls(arg, **kw), reserved
+
+
+# --------------------------------------------------------------------------
+# paths to leaves / compounds (labels agree with xv.decoder's extent labels)
+# --------------------------------------------------------------------------
+def nodes(t, mv, path=(), label="root", through_refs=True):
+    """Yield (path, label, node type, node model value) for every node reachable
+    from the root value; path steps are ('f', name) / ('i', idx); references are
+    transparent for access (reading a reference yields its target)."""
+    yield path, label, t, mv
+    k = t["k"]
+    if k == "st":
+        for fn, ft in t["f"]:
+            yield from nodes(ft, mv[fn], path + (("f", fn),), f"{label}.{fn}", through_refs)
+    elif k == "ar":
+        for idx in sorted(mv.items):
+            yield from nodes(t["it"], mv.items[idx], path + (("i", idx),), f"{label}{list(idx)}", through_refs)
+    elif k == "ref" and mv is not None and through_refs:
+        yield from nodes(t["to"], mv, path, label + "->", through_refs)
+    elif k == "ur" and mv is not None and through_refs:
+        yield from nodes(t["m"][mv[0]], mv[1], path, label + f"->{mv[0]}", through_refs)
+
+
+def get_path(root, path):
+    o = root
+    for st in path:
+        if st[0] == "f":
+            o = getattr(o, st[1])
+        elif st[0] == "i":
+            idx = st[1]
+            o = o[idx[0] if len(idx) == 1 else idx]
+        # ('t',) : already the target
+    return o
+
+
+def set_path(root, path, value):
+    path = [s for s in path if s[0] != "t"]
+    parent = get_path(root, path[:-1])
+    st = path[-1]
+    if st[0] == "f":
+        setattr(parent, st[1], value)
+    else:
+        idx = st[1]
+        parent[idx[0] if len(idx) == 1 else idx] = value
+
+
+def set_model(t, mv, path, value):
+    """Functional update of the model value at path (steps as above)."""
+    path = [s for s in path if s[0] != "t"]
+    if not path:
+        return value
+    st, rest = path[0], path[1:]
+    k = t["k"]
+    if k == "ref":
+        return set_model(t["to"], mv, path, value)
+    if k == "ur":
+        return (mv[0], set_model(t["m"][mv[0]], mv[1], path, value))
+    if k == "st":
+        ft = dict((a, b) for a, b in t["f"])[st[1]]
+        out = dict(mv)
+        out[st[1]] = set_model(ft, mv[st[1]], rest, value)
+        return out
+    if k == "ar":
+        items = dict(mv.items)
+        items[st[1]] = set_model(t["it"], mv.items[st[1]], rest, value)
+        return AVal(mv.shape, items)
+    raise ValueError(k)
